@@ -85,6 +85,19 @@ async fn verify_all<const N: usize>(s: &Storage<ArrayKey<N>>, items: &[Item], ph
             return Err((format!("roundtrip/{}/read_all-len/{}", phase, cls), format!("read_all returned {} entries for a key written once", entries.len())));
         }
         for mut e in entries {
+            // Entry::load on an entry that has nothing cached yet (no load_meta / load_data before): the whole record
+            // comes from one read; the same call again further down runs with the metadata cached
+            let mut fresh = match s.read_all(&key).await {
+                Ok(mut v) if v.len() == 1 => v.pop().unwrap(),
+                _ => return Err((format!("roundtrip/{}/read_all-len/{}", phase, cls), "second read_all differs from the first".into())),
+            };
+            let rec0 = fresh.load().await.map_err(|e| (format!("roundtrip/{}/entry-load-err/{}", phase, cls), format!("{:#}", e)))?;
+            if rec0.meta() != &it.meta {
+                return Err((format!("roundtrip/{}/entry-load-meta-differs/{}", phase, cls), format!("Entry::load (nothing cached) returned meta {:?}, written {:?}", rec0.meta(), it.meta_plain)));
+            }
+            if rec0.into_data().as_ref() != exp.as_slice() {
+                return Err((format!("roundtrip/{}/entry-load-differs/{}", phase, cls), format!("Entry::load (nothing cached) of {} B value differs", it.size)));
+            }
             let d = e.load_data().await.map_err(|e| (format!("roundtrip/{}/load_data-err/{}", phase, cls), format!("{:#}", e)))?;
             if d.as_ref() != exp.as_slice() {
                 return Err((format!("roundtrip/{}/load_data-differs/{}", phase, cls), format!("load_data of {} B value differs (got {} B)", it.size, d.len())));
